@@ -37,7 +37,8 @@ Fixpoint m_step_loop (cfg : mcfg) (fl : Z) (k : nat) (s : mars) (out : list (lis
     else
       let s' := m_cycle cfg s in
       let ret := if (m_cycles s' =? m_cycles s)%N then 1 else Z.of_nat (m_living s') in
-      m_step_loop cfg fl k' s' (out ++ [[3; ret] ++ m_observe (mc_M cfg) (flag fl 2) s'])
+      m_step_loop cfg fl k' s' (out ++ [[3; ret] ++ m_observe (mc_M cfg) (flag fl 2) s']
+                                    ++ (if flag fl 4 then [[11] ++ m_dump (mc_M cfg) s'] else []))
   end.
 
 Definition spec_battle (l : list Z) : list (list Z) :=
